@@ -221,6 +221,12 @@ func (w *world) step(op *model.Op) bool {
 		if c.Writer != nil {
 			written = append(written, c.Writer.Written()...)
 		}
+		if c.Reader != nil && !w.cfg.Loopback && c.Reader.Closes() == 0 {
+			// the caller is done with the call (whatever reader it got, it has closed): a direct caller's
+			// backend has seen its reader closed by now, and so has this one. (Not judged over real
+			// sockets, where the handler may still be on its way out.)
+			viol("relay/reader-not-closed/"+op.Kind, fmt.Sprintf("%s: the backend handed out a reader for %s and it was never closed", op, c.Method))
+		}
 	}
 	if op.Kind == "Repositories" || op.Kind == "Tags" {
 		seen := map[string]bool{op.StartAfter: true}
